@@ -79,6 +79,11 @@ def build_value(v):
             return build(v)
         if "l" in v:
             return [build_value(x) for x in v["l"]]
+        if "E" in v:
+            # the placeholder the default loader puts where a value is missing (a str
+            # subclass that carries a line number)
+            from pvl.parser import EmptyValueAtLine
+            return EmptyValueAtLine(v["E"])
         if "S" in v:
             # a mutable Python set, as ODLParser returns for {...}
             return set(v["S"])
@@ -110,6 +115,8 @@ def snap(x):
         return ("Q", type(x).__name__, snap(x.value), snap(x.units))
     if isinstance(x, (set, frozenset)):
         return ("S", type(x).__name__, sorted(repr(i) for i in x))
+    if hasattr(x, "lineno"):
+        return ("V", type(x).__name__, repr(x), x.lineno)
     return ("V", type(x).__name__, repr(x))
 
 
@@ -241,7 +248,9 @@ def nontrivial(case):
 
 def spec_strategy():
     key = st.sampled_from(["a", "b", "c", "d"])
-    scalar = st.one_of(st.integers(0, 3), st.sampled_from(["s", None, 1.5, True]))
+    scalar = st.one_of(st.integers(0, 3), st.sampled_from(["s", None, 1.5, True]),
+                       st.integers(0, 9).flatmap(
+                           lambda k: st.just({"E": k + 1}) if k < 2 else st.integers(0, 3)))
     lst = st.one_of(st.lists(scalar, max_size=3).map(lambda l: {"l": l}),
                     st.lists(scalar, max_size=3).map(lambda l: {"l": l}),
                     st.lists(st.integers(0, 3), max_size=3).map(lambda l: {"q": l}),
